@@ -43,7 +43,7 @@ int main(int argc, char** argv) {
     R.rule = "one evaluation = one parse of the real ProgramOptions for an enumerated placement of options on command line / config file; distinct = FNV of case + all getters (or the error text); trivial = nothing given";
     R.sample_every = 500;
     DIR = tmpdir(R, "c20");
-    const bool T = R.thorough();
+    const bool T = true /* the wide lattices run in both tiers */; const bool D = R.thorough(); (void)D;
     { std::string k = "nothing"; if (R.mine(k)) expect_ok(k, "C20/defaults", {}, {}); }
     // every option x {cli, cfg, cli+cfg different values} x 2 values
     for (size_t i = 0; i < NOPTS; i++) for (int v = 0; v < 2; v++) for (int pl = 0; pl < 3; pl++) {
@@ -72,7 +72,7 @@ int main(int argc, char** argv) {
     }
     R.bound_done("every one-letter option name x 2 values x {cli, cli over cfg}");
     // triples (thorough): every unordered triple of options, each on the command line or in the file in all 8 placements
-    if (T) {
+    if (D) {   // triples: thorough tier only
         for (size_t i = 0; i < NOPTS; i++) for (size_t j = i + 1; j < NOPTS; j++) for (size_t k = j + 1; k < NOPTS; k++) {
             std::string base = std::string("triple ") + OPTS[i].name + "+" + OPTS[j].name + "+" + OPTS[k].name;
             if (R.out_of_time()) { R.not_completed = base; goto done; }
